@@ -238,7 +238,7 @@ def gen():
         return norm(F.fn_body(allsrc[i:], "build_lattice", TOK))
 
     def gate():
-        m = re.search(r"if !self \.input \.cat_at_char\(ch_off\) \.intersects\(([^)]*)\) \{ for provider in self\.oov_providers \{", tk())
+        m = re.search(r"if !self ?\.input ?\.cat_at_char\(ch_off\) ?\.intersects\(([^)]*)\) \{ for provider in self\.oov_providers \{", tk())
         if not m:
             raise F.FactError("class gate of the provider loop in build_lattice not recognised")
         return F.coq_int(cat_expr(m.group(1), env, TOK))
@@ -293,7 +293,7 @@ def gen():
 
     def oov_info():
         body = norm(F.strip_comments(F.fn_body(F.src(TOK), "resolve_best_path", TOK)))
-        m = re.search(r"let wi = if inner\.word_id\(\)\.is_oov\(\) \{ (.*?)WordInfoData \{ (.*?) \.\.Default::default\(\) \} \.into\(\) \} else \{", body)
+        m = re.search(r"let wi = if inner\.word_id\(\)\.is_oov\(\) \{ (.*?)WordInfoData \{ (.*?) \.\.Default::default\(\) \} ?\.into\(\) \} else \{", body)
         if not m:
             raise F.FactError("OOV branch of resolve_best_path not recognised")
         lets = dict(re.findall(r"let (\w+) = ([^;]+);", m.group(1)))
